@@ -74,7 +74,27 @@ def gen_cases(rng, tier):
             kind = "random"
         f = rng.choice(nodes + lits + [EX.absent])
         cases.append({"g": gi, "path": p, "focus": f, "kind": kind})
+        # the algebraic rewritings of Paths/PathAlgebra.v (same relation, other syntax): both sides are cases
+        if kind == "random" and rng.random() < 0.25:
+            for q in rewritings(p):
+                cases.append({"g": gi, "path": q, "focus": f, "kind": "algebra"})
     return graphs, cases
+
+
+def rewritings(p):
+    """paths that denote the same relation as p by the laws proved in Paths/PathAlgebra.v"""
+    out = [("inv", ("inv", p))]
+    if p[0] == "seq":
+        out.append(("inv", ("seq", [("inv", q) for q in reversed(p[1])])))
+    if p[0] == "alt":
+        out.append(("inv", ("alt", [("inv", q) for q in p[1]])))
+    if p[0] == "plus":
+        out.append(("seq", [p[1], ("star", p[1])]))
+        out.append(("inv", ("plus", ("inv", p[1]))))
+    if p[0] == "star":
+        out.append(("opt", ("plus", p[1])))
+        out.append(("inv", ("star", ("inv", p[1]))))
+    return out
 
 
 def run_direct(graphs, cases):
